@@ -388,7 +388,7 @@ fn check() {
 
     let n = runs.load(Ordering::Relaxed);
     let nt = nontrivial.load(Ordering::Relaxed);
-    if n < 20_000 || nt < 1000 || outcomes.len() < 3 {
+    if chk.violation_count() == 0 && (n < 20_000 || nt < 1000 || outcomes.len() < 3) {
         machinery(format!("vacuous: runs={n} nontrivial={nt} outcomes={}", outcomes.len()));
     }
     let coverage = json!({
